@@ -72,6 +72,36 @@ def run(ck):
         if w2f[1] != wf[1] or numpy.abs(w2f[5] - wf[5]).max() > 1e-9 * scw or abs(w2f[4] - wf[4]) > 1e-9 * sc:
             ck.fail("axis:freq-time-freq", "frequency axis -> time axis -> frequency axis is not the identity", inp,
                     float(numpy.abs(w2f[5] - wf[5]).max()) if w2f[1] == wf[1] else "length")
+        # a history on ONE axis object: asked for its frequency axis (above), then moved (shift_to_zero) or given another frequency
+        # origin, then asked again: the answer is that of a fresh axis with the present parameters, and it maps back to the present axis
+        if h % 3 == 0:
+            try:
+                th = TimeAxis(abs(start) + dt, N, dt, atype=t.atype, frequency_start=fs)
+                th.get_FrequencyAxis()
+                how = ("shift_to_zero", "frequency_start")[(h // 3) % 2]
+                if how == "shift_to_zero":
+                    th.shift_to_zero()
+                else:
+                    th.frequency_start = fs + 0.75
+                wh = th.get_FrequencyAxis()
+                tb = wh.get_TimeAxis()
+                fresh = TimeAxis(th.start, N, dt, atype=th.atype, frequency_start=th.frequency_start).get_FrequencyAxis()
+                with energy_units("int"):
+                    a_ = (wh.start, wh.length, wh.step, wh.atype, wh.time_start)
+                    b_ = (fresh.start, fresh.length, fresh.step, fresh.atype, fresh.time_start)
+                inph = dict(inp, start=abs(start) + dt, history="get_FrequencyAxis; %s; get_FrequencyAxis" % how)
+                ck.case(("axis-history", N, dt, upper, fs, how), nontrivial=True, kind="axes", atype=inp["atype"], parity="odd" if N % 2 else "even",
+                        units="history")
+                if a_[1] != b_[1] or a_[3] != b_[3] or max(abs(a_[0] - b_[0]), abs(a_[2] - b_[2]), abs(a_[4] - b_[4])) > 1e-9 * sc:
+                    ck.fail("axis:history:frequency-axis", "frequency axis of a time axis that was changed after an earlier request differs from "
+                            "that of a fresh axis with the same parameters", inph, list(a_), list(b_))
+                if (tb.length != N or tb.atype != th.atype or abs(tb.start - th.start) > 1e-9 * sc or abs(tb.step - dt) > 1e-12 * dt
+                        or abs(tb.frequency_start - th.frequency_start) > 1e-9 * max(1.0, abs(th.frequency_start))):
+                    ck.fail("axis:history:time-freq-time", "time axis -> frequency axis -> time axis is not the identity for an axis that was "
+                            "changed after an earlier request", inph, [tb.start, tb.length, tb.step, tb.atype, tb.frequency_start],
+                            [th.start, N, dt, th.atype, th.frequency_start])
+            except Exception as e:
+                ck.fail("raises:axes:history", "axis history raised %r" % (e,), inp)
     # ---- (b) transforms ---------------------------------------------------------------------------------
     for h in range(ck.n(60, 1200)):
         N = rng.randint(2, 33) if rng.random() < 0.8 else rng.randint(34, 64)
